@@ -5,8 +5,6 @@ from . import common
 from .mir import generic_path
 
 CRATES = {"factory": "halo_factory", "pair": "halo_pair", "router": "halo_router"}
-EXEC_ENUM = {"factory": "haloswap::factory::ExecuteMsg", "pair": "haloswap::pair::ExecuteMsg", "router": "haloswap::router::ExecuteMsg"}
-HOOK_ENUM = {"pair": "haloswap::pair::Cw20HookMsg", "router": "haloswap::router::Cw20HookMsg"}
 MEMBER_PREFIXES = ("bignumber::", "haloswap::", "halo_factory::", "halo_pair::", "halo_router::")
 
 
@@ -20,8 +18,6 @@ def entry(P, contract, name):
     hits = [f for f in P.fns.values() if f.crate == crate and f.kind == "fn" and f.name == name and f.body is not None
             and "::tests::" not in f.path and re.match(r"^%s::\w+::%s$" % (crate, name), f.path)]
     # the entry point is the one whose last parameter is the contract's message type
-    if name == "execute":
-        hits = [f for f in hits if EXEC_ENUM[contract] in (f.sig or "")]
     if len(hits) != 1:
         raise AnchorMissing("entry point %s::%s: %d candidates" % (crate, name, len(hits)))
     return hits[0]
@@ -48,10 +44,12 @@ def arm_handlers(P, fn, region):
 
 def dispatch_arms(P, contract):
     """{variant: (execute Fn, edge)} for the contract's ExecuteMsg."""
+    from . import names
     ex = entry(P, contract, "execute")
-    d = common.dispatch(P, ex, EXEC_ENUM[contract])
+    en = names.get(P).exec_enum(contract)
+    d = common.dispatch(P, ex, en)
     if d is None:
-        raise AnchorMissing("no match on %s in %s" % (EXEC_ENUM[contract], ex.path))
+        raise AnchorMissing("no match on %s in %s" % (en, ex.path))
     return ex, d
 
 
@@ -69,33 +67,35 @@ def handler_of(P, contract, variant):
     """(dispatcher Fn, arm edge, arm region, handler Fn, call bb) of an ExecuteMsg variant."""
     ex, d = dispatch_arms(P, contract)
     if variant not in d:
-        raise AnchorMissing("variant %s::%s has no dispatch arm" % (EXEC_ENUM[contract], variant))
+        raise AnchorMissing("variant %s::%s has no dispatch arm" % (contract, variant))
     edge = d[variant]
     region = common.region_of_edge(ex.body, edge)
     hs = forwarded_handler(P, ex, region)
     if len(hs) != 1:
-        raise AnchorMissing("arm %s::%s forwards to %d handlers" % (EXEC_ENUM[contract], variant, len(hs)))
+        raise AnchorMissing("arm %s::%s forwards to %d handlers" % (contract, variant, len(hs)))
     return ex, edge, region, hs[0][1], hs[0][0]
 
 
 def hook_dispatch(P, contract):
     """(receive Fn, {variant: edge}) — the match on the cw20 hook enum inside the Receive handler."""
+    from . import names
     _, _, _, recv, _ = handler_of(P, contract, "Receive")
-    d = common.dispatch(P, recv, HOOK_ENUM[contract])
+    hk = names.get(P).hook_enum(contract)
+    d = common.dispatch(P, recv, hk)
     if d is None:
-        raise AnchorMissing("no match on %s in %s" % (HOOK_ENUM[contract], recv.path))
+        raise AnchorMissing("no match on %s in %s" % (hk, recv.path))
     return recv, d
 
 
 def hook_handler_of(P, contract, variant):
     recv, d = hook_dispatch(P, contract)
     if variant not in d:
-        raise AnchorMissing("hook variant %s::%s has no arm" % (HOOK_ENUM[contract], variant))
+        raise AnchorMissing("hook variant %s::%s has no arm" % (contract, variant))
     edge = d[variant]
     region = common.region_of_edge(recv.body, edge)
     hs = forwarded_handler(P, recv, region)
     if len(hs) != 1:
-        raise AnchorMissing("hook arm %s::%s forwards to %d handlers" % (HOOK_ENUM[contract], variant, len(hs)))
+        raise AnchorMissing("hook arm %s::%s forwards to %d handlers" % (contract, variant, len(hs)))
     return recv, edge, region, hs[0][1], hs[0][0]
 
 
@@ -193,11 +193,8 @@ class PairRoles:
         self.funds_check = self._funds_check()
 
     def _funds_check(self):
-        hits = [f for f in self.P.prod_fns() if f.kind in ("fn", "assoc_fn") and f.sig and
-                re.search(r"fn\(&'?\w* ?haloswap::asset::Asset, &'?\w* ?cosmwasm_std::MessageInfo\) -> std::result::Result<\(\), cosmwasm_std::StdError>", f.sig)]
-        if len(hits) != 1:
-            raise AnchorMissing("native-funds check (fn(&Asset,&MessageInfo)->StdResult<()>): %d candidates" % len(hits))
-        return hits[0]
+        from . import names
+        return names.get(self.P).funds_check
 
     def calls_to(self, fn, callee):
         return [b for b, p, fr, t in self.P.calls(fn) if p and (generic_path(p) == callee.path or p == callee.path)]
